@@ -549,9 +549,12 @@ impl NamedFile {
         // check for range header
         if let Some(ranges) = req.headers().get(header::RANGE) {
             if let Ok(ranges_header) = ranges.to_str() {
+                // an empty range (a suffix range on an empty file) cannot be described by
+                // `Content-Range` and is not satisfiable
                 if let Some(range) = HttpRange::parse(ranges_header, length)
                     .ok()
                     .and_then(|ranges| ranges.first().copied())
+                    .filter(|range| range.length > 0)
                 {
                     ranged_req = true;
                     length = range.length;
